@@ -30,6 +30,9 @@ type smallHuffCodeTable struct {
 // | Code Length / Max Length | 12 - 16 |
 func (t *smallHuffCodeTable) GenerateForHeader(codes []huffCode, count []uint16, maxSymbol uint32) {
 	var countTotal, countTotalTmp [17]uint32
+	// entries of codes that this header does not assign must decode to
+	// "invalid", not to whatever the previous block left in the table
+	*t = smallHuffCodeTable{}
 	shortCodeLookup := t.ShortCodeLookup[:]
 
 	for i := 2; i < 17; i++ {
